@@ -124,8 +124,6 @@ def real_polars(tbl, um: ser.UidMap):
     from pydiverse.transform._internal.backend import polars as P
     from pydiverse.transform._internal.tree import verbs as V
     nd = tbl._ast
-    if any(isinstance(x, V.Join) for x in nd.iter_subtree_preorder()):
-        return None
     if not issubclass(tbl._cache.backend, P.PolarsImpl):
         return None
     lf, name_in_df, select, partition_by = P.compile_ast(nd)
